@@ -57,7 +57,33 @@ def cases(tier, rng):
             if s[:k] not in seen:
                 seen.add(s[:k]); out.append((mk(s[:k]), "seq%d" % min(k, 4)))
     out += resolve_cases(tier, rng)
+    out += solver_cases(tier, rng)
     return out
+
+# ---- through the solver: facts whose heads hold FRESH variables inside a compound term or a list, called with variables that
+#      are already aliased through other clause heads (eq($P, $P)); every answer is resolved (formatting it walks the bindings) ----
+def solver_cases(tier, rng):
+    from gen import progs
+    facts = {"mk": "mk(box($A)).", "cell": "cell([$A]).", "pr": "pr(f($A, $B)).", "opn": "opn([$A | $B]).", "two": "two(g($A, $A)).",
+             "gr": "gr(box(a))."}
+    eqs = ["eq($P, $P).", "eq($P, $Q) :- $P = $Q."]
+    out = []
+    for f, ftxt in facts.items():
+        bodies2 = ["%s($Y), eq($W, $Y)" % f, "eq($W, $Y), %s($Y)" % f, "%s($Y), eq($Y, $W)" % f, "%s($Y), %s($W), eq($Y, $W)" % (f, f),
+                   "%s($Y), $W = $Y" % f, "eq($W, $Y), %s($W)" % f]
+        bodies3 = ["%s($Y), eq($W, $Y), eq($V, $W)" % f, "eq($V, $W), %s($Y), eq($W, $Y)" % f, "eq($W, $Y), eq($V, $W), %s($V)" % f,
+                   "%s($Y), %s($V), eq($W, $Y), eq($V, $W)" % (f, f)]
+        for e in eqs:
+            for b in bodies2:
+                for q in ("t($X, $Y)", "t($X, $X)", "t($Y, $X)"):
+                    out.append((["%s" % ftxt, e, "t($Y, $W) :- %s." % b], q))
+            for b in bodies3:
+                for q in ("u($X, $Y, $Z)", "u($X, $X, $Y)", "u($Z, $Y, $X)"):
+                    out.append((["%s" % ftxt, e, "u($Y, $W, $V) :- %s." % b], q))
+    res = []
+    for rules, q in out:
+        res.append(("(hist (kb-text %s) %s (ask 0) (ask 0))" % (" ".join(S(r) for r in rules), progs.build_text(0, q)), "solver"))
+    return res
 
 # ---- the resolution helpers of substitution_set.rs (is_bound, get_binding, is_ground_variable, get_ground_term,
 #      get_complex, get_list, get_constant) on ACYCLIC substitution sets: slot i is bound to a term whose variables
@@ -120,10 +146,14 @@ RULE = ("all sequences of length <= 2 (quick: plus 6000 random of length 3 and 3
         "Also the seven resolution helpers of substitution_set.rs (is_bound, get_binding, is_ground_variable, get_ground_term, get_complex, "
         "get_list, get_constant) on generated ACYCLIC substitution sets (slot i bound to a term over variables above i) and probe terms "
         "(variables inside, at the end of and beyond the set, constants, compound terms): model-vs-implementation plus a python walker as oracle. "
-        "Non-trivial = at least two variable-variable steps succeeded / the helper found a binding.")
+        "Through the solver: text programs whose facts hold fresh variables inside a compound term or a list (mk(box($A)). cell([$A]). ...), called from "
+        "rules that alias their variables through other clause heads (eq($P, $P)) in every order, the answer formatted (which resolves every variable); "
+        "none may diverge or panic. "
+        "Non-trivial = at least two variable-variable steps succeeded / the helper found a binding / the answer shows the fact's compound term.")
 
 def nontrivial(case, tag, result):
     if tag == "resolve": return "(ok (some" in result or "(ok 1)" in result
+    if tag == "solver": return "(ans (ss" in result
     if not case.startswith("(useqr "): return False
     c = parse(case)
     vv = sum(1 for p in c[3:] if obs.is_var(p[0]) and obs.is_var(p[1]) and p[0] != p[1])
@@ -144,6 +174,21 @@ def relations(cases, impl):
             if got != exp:
                 yield dict(case=case, tag=tag, why="%s: the result differs from following the chain of bindings by hand" % c[1],
                            implementation=dict(result=res), expected=obs.to_text(exp) if isinstance(exp, list) else exp)
+            continue
+        if tag == "solver":
+            REL_STATS["solver_histories"] = REL_STATS.get("solver_histories", 0) + 1
+            why = None
+            if "diverged" in res or "panic" in res or "fuel" in res:
+                why = "solving (no step needs an occurs check) or formatting the answer did not finish: a cycle of bindings"
+            else:
+                try:
+                    for o in parse(res)[1:]:
+                        if isinstance(o, list) and o[0] == "ans" and isinstance(o[1], list) and o[1][0] == "ss":
+                            if obs.has_cycle([None if e == "-" else e for e in o[1][1:]]):
+                                why = "the answer's substitution set contains a cycle of bindings (through a compound term)"
+                except Exception:
+                    why = "unreadable result"
+            if why: yield dict(case=case, tag=tag, why=why, implementation=dict(result=res))
             continue
         if not case.startswith("(useqr "): continue
         r = obs.parse_result(res)
